@@ -87,17 +87,9 @@ def handle : Handler := fun op args =>
         | .ok (i, _), .ok (j, _) => ans (interp2EvalGuard ox.N ox.x ox.st oy.N oy.x oy.st a b) (interp2EvalReads ox.N oy.N i j)
         | _, _ => ans (interp2EvalGuard ox.N ox.x ox.st oy.N oy.x oy.st a b)
   -- 4. Find_Root
-  | "c10.findroot" => withArgs (do let a ← pOptRat; let b ← pOptRat; pure (a, b)) args fun (a, b) =>
-      -- FINDING: `fLeft * fRight` underflows to ±0 in double for |fL·fR| < 2^-1075: a bracket with a
-      -- sign change is then rejected (`-0.0 >= 0.0`).  The exact model accepts it; not compared.
-      match a, b with
-      | some x, some y => if x * y ≠ 0 ∧ rabs (x * y) < pow2 (-1073) then "undef" else ans (findRootGuard a b)
-      | _, _ => ans (findRootGuard a b)
+  | "c10.findroot" => withArgs (do let a ← pOptRat; let b ← pOptRat; pure (a, b)) args fun (a, b) => ans (findRootGuard a b)
   -- 5. Integration
-  | "c10.integ1" => withArgs (do let m ← pMethod; let a ← pRat; let b ← pRat; pure (m, a, b)) args fun (m, a, b) =>
-      -- FINDING: `Integrate(f, a, a, "no-such-method")` returns 0.0: the degenerate-interval shortcut
-      -- precedes the method dispatch, so the unknown method is not diagnosed.  Not compared.
-      if a = b ∧ ¬ (m ∈ methods1D) then "undef" else ans (integrate1Guard a b m)
+  | "c10.integ1" => withArgs (do let m ← pMethod; let a ← pRat; let b ← pRat; pure (m, a, b)) args fun (m, a, b) => ans (integrate1Guard a b m)
   | "c10.integ2" | "c10.integ3" | "c10.integ3s" => withArgs pMethod args fun m => ans (integrateNDGuard m)
   | "c10.integmc" => withArgs pMethod args fun m => ans (integrateMCGuard m)
   | "c10.gl" => withArgs p2 args fun (n, m) => ans (gaussLegendreGuard n m) (gaussLegendreReads (ones n) (List.replicate m [1, 1]))
@@ -107,9 +99,7 @@ def handle : Handler := fun op args =>
   | "c10.gammaln" => withArgs pRat args fun x => ans (gammaLnGuard x)
   | "c10.gammaq" => withArgs (do let x ← pRat; let a ← pRat; pure (x, a)) args fun (x, a) => ans (gammaQGuard x a)
   | "c10.invgammap" => withArgs (do let p ← pRat; let a ← pRat; pure (p, a)) args fun (_, a) => ans (invGammaPGuard a)
-  | "c10.round" => withArgs (do let x ← pRat; let d ← pNat; pure (x, d)) args fun (x, d) =>
-      -- FINDING: `Round(0, digits > 7)` returns 0: `if(N == 0) return 0;` precedes the digits test.  Not compared.
-      if x = 0 ∧ d > 7 then "undef" else ans (roundGuard x d)
+  | "c10.round" => withArgs (do let x ← pRat; let d ← pNat; pure (x, d)) args fun (x, d) => ans (roundGuard x d)
   | "c10.vshy" | "c10.vshpsi" => withArgs pInt args fun c => ans (vshGuard c)
   | "c10.inverf" => withArgs pRat args fun p => ans (invErfGuard p)
   -- 7. Statistics
